@@ -8,11 +8,11 @@ MODULE = "fmgraph"
 ENTRIES = c04.ENTRIES
 NATIVE_TIMEOUT = 60
 BOUNDS = {
-    "quick": {"models": "3 API-built graphs (SSE skinned+collision+extra+loose, SK skinned+controller+2 shapes+deeper tree, OB skinned+collision+controller)", "symbolic": "K=1: every reference field of every block takes an unconstrained 32-bit value (empty, count, beyond count, self, ancestor, wrong type, any in-range index are all values of that variable)"},
+    "quick": {"models": "4 API-built graphs (SSE skinned+collision+extra+loose, SK skinned+controller+2 skinned shapes with 2 and 1 bones+deeper tree, OB skinned+collision+controller, FO4 two skinned shapes with 2 and 1 bones)", "symbolic": "K=1: every reference field of every block takes an unconstrained 32-bit value (empty, count, beyond count, self, ancestor, wrong type, any in-range index are all values of that variable)"},
     "thorough": {"models": "all 10 graphs incl. FO3/FO4/FO76", "symbolic": "K=1 every field; K=2 on selected pairs of fields"},
 }
 ASSUMPTIONS = [
-    "the corrupted file is produced by writing the clean model, patching one (two) reference fields of the loaded copy with symbolic values and writing it again without clean-up; that byte image is then loaded, queried (read-only battery), copied, sorted, saved with default options and reloaded",
+    "the corrupted file is produced by writing the clean model, patching one (two) reference fields of the loaded copy with symbolic values and writing it again without clean-up; that byte image is then loaded, queried (read-only battery incl. per-bone transforms, bounds and weights for every index of the shape's bone list), copied, sorted, saved with default options and reloaded",
     "oracle: engine built-ins (memory faults, division by zero, unbounded recursion > 400 frames, instruction budget, C++ exceptions) and load/save return codes",
 ]
 LEVEL_TEXT = ("Bounded symbolic model checking: one (two) reference fields of a small valid file carry unconstrained symbolic 32-bit values; "
@@ -20,7 +20,7 @@ LEVEL_TEXT = ("Bounded symbolic model checking: one (two) reference fields of a 
               "z3 decides for every value whether a memory fault, unbounded recursion, hang or exception is reachable.")
 LEVEL_NOTE = "Small graphs; K<=2 simultaneous corruptions; engine models as DESIGN.md 2.5."
 
-GRAPHS_Q = [(SSE, SKIN | COLL | EXTRA | LOOSE), (SK, SKIN | CTRL | SHAPE2 | CHILDNODE), (OB, SKIN | COLL | CTRL)]
+GRAPHS_Q = [(SSE, SKIN | COLL | EXTRA | LOOSE), (SK, SKIN | CTRL | SHAPE2 | CHILDNODE | SKIN2), (OB, SKIN | COLL | CTRL), (FO4, SKIN | SHAPE2 | SKIN2)]
 
 
 def jobs(tier, seed):
